@@ -199,17 +199,26 @@ theorem tagTuples_perm_groups (u : UInfo) (tagss : List (List Str)) :
   simp only [groupEndpoints, List.map_map]
   exact List.Perm.of_eq (List.map_congr_left (fun e _ => rfl))
 
+theorem opTagPairs_forget_id (u : UInfo) (id : Str) : ∀ (ts seen : List Str),
+    opTagPairs u [] seen ts = (opTagPairs u id seen ts).map fun p => (p.1, p.2.1, p.2.2.map (fun _ => ([] : Str))) := by
+  intro ts
+  induction ts with
+  | nil => intro _; rfl
+  | cons t ts ih =>
+    intro seen
+    simp only [opTagPairs]
+    split <;> simp [ih]
+
 /-- Operation ids play no role: the tag pairs of the id-less operations. -/
 theorem tagPairs_opsOfTags (u : UInfo) (ops : List TagOp) :
-    tagPairs u (opsOfTags (ops.map (·.tags))) = (tagPairs u ops).map fun p => (p.1, p.2.1, []) := by
+    tagPairs u (opsOfTags (ops.map (·.tags))) = (tagPairs u ops).map fun p => (p.1, p.2.1, p.2.2.map (fun _ => ([] : Str))) := by
   unfold tagPairs opsOfTags
   induction ops with
   | nil => rfl
   | cons op ops ih =>
     simp only [List.map_cons, List.flatMap_cons, List.map_append, ih]
     congr 1
-    simp only [List.map_map]
-    rfl
+    exact opTagPairs_forget_id u op.id _ []
 
 theorem tagMapEmitter_opsOfTags (u : UInfo) (ops : List TagOp) :
     tagMapEmitter u (opsOfTags (ops.map (·.tags))) = tagMapEmitter u ops := by
